@@ -28,6 +28,8 @@ var c10Prelude = []string{
 	// loop variables of the failing loops: bound beforehand to the value they have when the loop fails (first iteration), so
 	// that the failing input completes no side effect (a loop assigns its variable like `=`, with or without registers)
 	"li = 0", "lj = 0",
+	`fnoisy = func(n) {println("noisy", n); fdeep(1)}`,
+	"bm = {}", "for bi = 400 {bm[bi] = bi}",
 	"mgood = macro(x) {quote(unquote(x) + 1)}",
 	"mboom = macro(x) {func boom(n) {boom(n + 1)}; boom(0); quote(unquote(x))}",
 	`merr = macro(x) {error("in macro body")}`,
@@ -94,6 +96,14 @@ func c10Fail(kind string) string {
 		return "[1, 2] * 4000000000000"
 	case "depth-overflow-expression":
 		return strings.Repeat("-(", 400) + "1" + strings.Repeat(")", 400)
+	case "print-then-panic-in-function":
+		return "fnoisy(1)"
+	case "depth-overflow-in-library-function":
+		return "keys(bm)"
+	case "depth-overflow-in-eval":
+		return `eval("fdeep(1)")`
+	case "panic-in-eval":
+		return `eval("fadd(1, fadd(2, [1, 2] * 4000000000000))")`
 	case "arity-error-top-call":
 		return "fadd(1)"
 	case "param-bind-error-top-call":
@@ -222,7 +232,7 @@ func checkC10(c *Ctx) {
 	seen := map[string]bool{}
 	n := 0
 	deadlineBudget := c.Pick(40, 300) // histories containing the (slow) deadline failure
-	stride := c.Pick(3, 12)
+	stride := c.Pick(5, 12)
 	err = ReadLines(r.Emitted, func(line []byte) error {
 		var g struct {
 			H [][]any `json:"h"`
